@@ -14,7 +14,9 @@
   header/footer/brand (Go's `armorOpen`) succeeds exactly when the whole-text
   function `Armor.openPure T` (C11) does, with the same payload, brand, header
   and footer; `C13_armor_stream_independent`: hence two fragmentations and two
-  buffer schedules agree.  Excluded scripts (`SrcOK`), each with a
+  buffer schedules agree; `C13_armor_released_comparable`: on failure too, the
+  bytes released under different fragmentations are prefixes of one another
+  (all are prefixes of `maxRelease T`).  Excluded scripts (`SrcOK`), each with a
   machine-checked counterexample in Proofs/Stack*.lean: empty non-terminal
   reads `(0, nil)` (Go's `ReadUntilPunctuation` turns one into
   `ErrUnexpectedEOF`; the property's quantifier excludes readers that return
@@ -28,6 +30,7 @@ import Saltpack.Proofs.StreamLemmas
 import Saltpack.Proofs.ChunkReaderAll
 import Saltpack.Proofs.PunctAll
 import Saltpack.Proofs.ArmorStack
+import Saltpack.Proofs.ArmorStackFaults
 
 namespace Saltpack.Props.C13
 open Saltpack Saltpack.Stream Saltpack.Proofs
@@ -205,6 +208,27 @@ theorem C13_armor_stream_independent (par : Armor.Params) (hpar : par.enc.WF) (e
     (fuel fuel' : Nat) (hfuel : T.length + 1 ≤ fuel) (hfuel' : T.length + 1 ≤ fuel') :
     (armorOpenStream par expect caps fuel src).toOption = (armorOpenStream par expect caps' fuel' src').toOption :=
   armorOpenStream_independent par hpar expect src src' T hok hok' hsrc hsrc' caps caps' hcaps hcaps' fuel fuel' hfuel hfuel'
+
+/-- **On failure, released bytes are prefixes of one another**: whatever the
+    text (malformed or not), the bytes released under two fragmentations and two
+    buffer schedules are comparable — both are prefixes of `maxRelease T`, a
+    function of the text alone (and equal to it when the run ends cleanly) -/
+theorem C13_armor_released_bounded (par : Armor.Params) (hpar : par.enc.WF) (expect : Armor.Expect)
+    (src : Source) (T : Bytes) (hok : SrcOK src) (hsrc : srcText src = (T, .eof))
+    (caps : List Nat) (hcaps : ∀ c ∈ caps, 0 < c) (fuel : Nat) (hfuel : T.length + 1 ≤ fuel) :
+    (readAll par expect caps fuel 0 (newDecoder src) []).1 <+: maxRelease par expect T ∧
+    ((readAll par expect caps fuel 0 (newDecoder src) []).2.1 = none →
+      (readAll par expect caps fuel 0 (newDecoder src) []).1 = maxRelease par expect T) :=
+  released_prefix_maxRelease par hpar expect src T hok hsrc caps hcaps fuel hfuel
+
+theorem C13_armor_released_comparable (par : Armor.Params) (hpar : par.enc.WF) (expect : Armor.Expect)
+    (src src' : Source) (T : Bytes) (hok : SrcOK src) (hok' : SrcOK src')
+    (hsrc : srcText src = (T, .eof)) (hsrc' : srcText src' = (T, .eof))
+    (caps caps' : List Nat) (hcaps : ∀ c ∈ caps, 0 < c) (hcaps' : ∀ c ∈ caps', 0 < c)
+    (fuel fuel' : Nat) (hfuel : T.length + 1 ≤ fuel) (hfuel' : T.length + 1 ≤ fuel') :
+    (readAll par expect caps fuel 0 (newDecoder src) []).1 <+: (readAll par expect caps' fuel' 0 (newDecoder src') []).1 ∨
+    (readAll par expect caps' fuel' 0 (newDecoder src') []).1 <+: (readAll par expect caps fuel 0 (newDecoder src) []).1 :=
+  released_prefix_comparable par hpar expect src src' T hok hok' hsrc hsrc' caps caps' hcaps hcaps' fuel fuel' hfuel hfuel'
 
 /-- **Source model**: a `Read` takes a prefix of the data, at most the buffer
     size, and leaves the rest — fragmentations of the same bytes differ only in
